@@ -140,7 +140,7 @@ template<class T>
 T fromString(const std::string& s)
 {
   std::istringstream iss(s);
-  T obj;
+  T obj{}; // An extraction that fails before reading anything (e.g. empty string) does not assign.
   iss >> obj;
   return obj;
 }
@@ -170,7 +170,7 @@ template<class T>
 T to(const std::string& s)
 {
   std::istringstream iss(s);
-  T t;
+  T t{}; // An extraction that fails before reading anything (e.g. empty string) does not assign.
   iss >> t;
   return t;
 }
